@@ -21,6 +21,25 @@ CLAIMED = {
                 'Correspondence over codes x messages x data shapes x exception types, as call / notification / batch element.',
                 note='Kernel + standard axioms; statements are for the library without user error handlers on the code in question (handlers are C12); '
                 'the loader accepting NaN/Infinity (D20) is a recorded finding decided by the oracle.'),
+    'C07': dict(ref='§4 C07', text='Lean theorems: every notation emits exactly one well-formed request document (ids present for calls, absent for notifications, arguments as given); '
+                'emitted batch documents have pairwise distinct call ids for every id generator, and sequential with step != 0 is never refused; loop-back through the library\'s own dispatcher: '
+                'C07_loopback_value / C07_loopback_error (same code, message, data; class registered for the code else the client\'s base) / notifications and all-notification batches silent; notations interchangeable. '
+                'Tied by real sync and async clients in every notation x id generators x strict on/off, looped back into real sync and async dispatchers, compared with the model end to end.',
+                note='Kernel + standard axioms; composition of the C05 round-trip theorems, the dispatcher theorems (C02, C12) and the client model; generators.uuid (D7) is a recorded finding.'),
+    'C08': dict(ref='§4 C08', text='Lean theorems: single responses — id mismatch rejected in strict mode, otherwise related; C08_batch_accept_iff (strict: accepted iff the non-null response ids are exactly the call ids, '
+                'duplicate-free by the strict BatchResponse), C08_positional_attribution (after acceptance the id-carrying responses are in call order whatever the server\'s order), bad bodies raise the deserialisation error, '
+                'server and batch-level errors are raised. Tied by every response document a server could return for batches of <=3 (quick) / <=4 (thorough) calls plus notifications: permutations, omissions, duplications, additions, '
+                'type-confused and null ids, batch-level errors, success/error mixes; singles x every id relation x strict on/off x sync/async.',
+                note='Kernel + standard axioms; the ordering step is modelled as bucketing by call position (equal to the stable list.sort by position used in the code; checked by the correspondence run).'),
+    'C09': dict(ref='§4 C09', text='Lean theorems over the retry loop (structural recursion on the remaining delays — termination is the bound): sends <= attempts+1, re-sent iff listed outcome and attempts remain (C09_resend_iff), '
+                'sleeps = delays.take (sends-1), final = outcome of the last attempt, unlisted outcomes immediate, exhaustion; the three backoff families\' delay formulas for any numeric carrier; per-request strategy wins. '
+                'Tied by outcome scripts over 7 outcome kinds x code / exception sets x the three backoff families with scripted jitter and caps x single / batch / notification x client-wide / per-request / disabled, sync and async, '
+                'sleeps captured bit-exactly.',
+                note='Kernel + standard axioms; float rounding is not reasoned about (the theorems are identities between the same operations at any carrier; the driver evaluates them at IEEE doubles with libm pow as CPython does).'),
+    'C19': dict(ref='§4 C19', text='Lean theorems: attempt shape (begin per tracer in order, then exactly one completion per tracer: end iff returned, error iff raised, same context), all attempts traced, '
+                'begin and completion counts equal the number of sends per tracer, the outcome the tracers saw last is the one reaching the caller. Tied by scripts over 6 per-attempt outcome kinds (incl. BaseException) '
+                'x strategies of 0..3 attempts x 0..3 tracers x single / batch / notification x caller-supplied vs default trace context, sync and async.',
+                note='Kernel + standard axioms; tracers that raise are outside the property.'),
     'C10': dict(ref='§4 C10', text='Lean theorems: schedule_independence / complete_schedule_results (any number of processes, segments, any schedule) for non-interfering processes; '
                 'the dispatcher\'s element handlers are such processes (handler_segments_noninterfering); corollaries C10_order_and_identity, C10_async_batch_equals_sync, '
                 'C10_exactly_once (per-element log projection = the element\'s own events, every one once, under every complete schedule) and C10_sequential_no_overlap. '
